@@ -142,7 +142,7 @@ theorem shuttingDown_mono_step0 {s s' : St} {l : Label} (h : step0 s l = some s'
         | (cases h
            have h2 : ∀ (X : St) r, (toP2 X r).writeErr = X.writeErr := fun _ _ => rfl
            have h3 : ∀ (X : St) n (f : Call → Call), (modCall X n f).writeErr = X.writeErr := fun _ _ _ => rfl
-           simp [St.shuttingDown, h2, h3, hm])
+           simp [St.shuttingDown, hm])
 
 theorem shuttingDown_mono_step {s s' : St} {l : Label} (h : step s l = some s') (hs : s.shuttingDown = true) :
     s'.shuttingDown = true := by
